@@ -204,6 +204,20 @@ claim("C08", "exploration",
       "Known finding KF-C08-python-max-min.",
       "DESIGN.md section 3 C08")
 
+claim("C06", "translation_validation",
+      "emitted .td / .cc text parsed back by independent recursive-descent parsers and walked in lock-step with the graph",
+      "Every shipped (function, signature) of the stablehlo and xla_client targets (xla_client under the alternative constant context), a unit program per "
+      "declared kind (both operand orders for binary kinds) and named constant, directed programs (shared sub-expressions, shared constants, signed zero, "
+      "complex-typed constants) and random graphs are emitted - with and without clang-format on PATH for the C++ text - and parsed back; the walker checks, "
+      "node by node, the operator against a table written from the StableHLO/CHLO dialect and the xla:: builder API, arity and operand order, comparison "
+      "direction, named constants, exact numeric value (sign of zero included), the element class of the operand a constant is attached to, and that every "
+      "name is bound exactly once before it is referenced in the order the consumer reads the text; compile-time constant sub-expressions of the XLA "
+      "client text are evaluated for float32 and float64 and compared with the value the alternative-context expression denotes.",
+      "Trusted: vf/parsers.py and the operator tables in vf/props/c06.py. The texts cannot be executed here: isomorphism of the rendering, not downstream "
+      "semantics. Constants that differ only in their like expression (same value, same type) may share one name. Two known findings for boolean / "
+      "implicit-like constants under the alternative context.",
+      "DESIGN.md section 3 C06")
+
 SOURCE_COMMITS = []
 
 
